@@ -91,7 +91,23 @@ func newStandIn() *standIn {
 		go s.serveTCP()
 		return s
 	}
-	panic("no loopback port for the controller stand-in")
+	// every port of the preferred range is taken: let the kernel choose
+	for {
+		u, err := net.ListenUDP("udp4", &net.UDPAddr{IP: net.IPv4(127, 0, 0, 1)})
+		if err != nil {
+			continue
+		}
+		port := u.LocalAddr().(*net.UDPAddr).Port
+		t, err := net.ListenTCP("tcp4", &net.TCPAddr{IP: net.IPv4(127, 0, 0, 1), Port: port})
+		if err != nil {
+			u.Close()
+			continue
+		}
+		s := &standIn{port: uint16(port), udp: u, tcp: t}
+		go s.serveUDP()
+		go s.serveTCP()
+		return s
+	}
 }
 
 func (s *standIn) script(reply []byte) {
@@ -136,7 +152,7 @@ func (s *standIn) serveTCP() {
 		go func() {
 			defer conn.Close()
 			buf := make([]byte, 2048)
-			conn.SetDeadline(time.Now().Add(time.Second))
+			conn.SetDeadline(time.Now().Add(5 * time.Second))
 			n, err := conn.Read(buf)
 			if err != nil {
 				return
@@ -223,7 +239,12 @@ func wirePhase(c *ctx, n int) {
 			g.toks = append(g.toks, fmt.Sprintf("dev=%d;beta;127.0.0.1:%d;%s", dev, s.port, mode))
 		}
 		debug := r.Bool()
-		focus := rng.Pick(r, "valid", "valid", "valid", "valid", "valid", "valid", "mutated", "silence")
+		// the timeout is generous (a loaded machine must not turn an answered call into a failed one), so only a
+		// few calls go unanswered
+		focus := rng.Pick(r, "valid", "valid", "valid", "valid", "valid", "valid", "mutated", "mutated")
+		if i%250 == 249 {
+			focus = "silence"
+		}
 		if sweep {
 			op = opDefs[i%len(opDefs)]
 			debug = i < 3*len(opDefs)
@@ -249,7 +270,7 @@ func wirePhase(c *ctx, n int) {
 		var pt *passThrough
 		bind := types.BindAddrFrom(netip.MustParseAddr("0.0.0.0"), 0)
 		listen := types.ListenAddrFrom(netip.MustParseAddr("0.0.0.0"), 60001)
-		u := uhppote.VerifNew(bind, g.broadcast, listen, 100*time.Millisecond, g.devices, debug,
+		u := uhppote.VerifNew(bind, g.broadcast, listen, 1500*time.Millisecond, g.devices, debug,
 			func(inner uhppote.VerifDriver) uhppote.VerifDriver { pt = &passThrough{inner: inner}; return pt })
 		if len(arrivals) == 1 {
 			s.script(arrivals[0])
@@ -264,7 +285,7 @@ func wirePhase(c *ctx, n int) {
 		out := res
 		if res != "panic" && res != "mutated-argument" {
 			// an operation that expects no reply returns before the stand-in has read its request
-			for wait := 0; wait < 100 && len(s.received()) < len(pt.calls); wait++ {
+			for wait := 0; wait < 750 && len(s.received()) < len(pt.calls); wait++ {
 				time.Sleep(2 * time.Millisecond)
 			}
 			got := s.received()
@@ -378,5 +399,57 @@ func parallelPhase(c *ctx, rounds int) {
 				c.w.Emit(line, out, "phase/parallel", "arrivals/"+j.cls, "op/"+j.op.name, "res/"+strings.SplitN(j.res, " ", 2)[0], fmt.Sprintf("calls/%d", len(j.calls)))
 			}
 		}
+	}
+}
+
+// sharedPhase: ONE client, configured with controllers, used by several goroutines at once (set-address, device
+// list, ordinary calls, discovery): the library may keep no unsynchronised state that such use could corrupt.
+// One line per round; what is observed is that every call returns and the process survives (a concurrent map
+// write is a fatal error the harness cannot recover from: the stream then ends in a crash).
+func sharedPhase(c *ctx, rounds int) {
+	r := c.r
+	for round := 0; round < rounds; round++ {
+		devices := []uhppote.Device{}
+		for i := 0; i < 3; i++ {
+			b := r.Bytes(4)
+			devices = append(devices, uhppote.Device{Name: fmt.Sprintf("c%d", i), DeviceID: uint32(700001 + i),
+				Address: types.ControllerAddrFrom(netip.AddrFrom4([4]byte{10, b[1], b[2], b[3] | 1}), 60000), Protocol: rng.Pick(r, "udp", "tcp")})
+		}
+		u, d := newClient(devices, types.BroadcastAddr{})
+		d.Datagrams = nil
+		const G, K = 6, 300
+		var wg sync.WaitGroup
+		returned := make([]int, G)
+		for g := 0; g < G; g++ {
+			wg.Add(1)
+			go func(g int, seed uint64) {
+				defer wg.Done()
+				defer func() { recover() }()
+				rr := rng.New(seed)
+				for k := 0; k < K; k++ {
+					dev := uint32(700001 + rr.Intn(3))
+					switch (g + k) % 5 {
+					case 0:
+						u.SetAddress(dev, net.IPv4(10, 0, byte(k), byte(1+rr.Intn(250))), net.IPv4(255, 255, 255, 0), net.IPv4(10, 0, 0, 1))
+					case 1:
+						for range u.DeviceList() {
+						}
+					case 2:
+						u.GetTime(dev)
+					case 3:
+						u.OpenDoor(dev, 1)
+					default:
+						u.GetDevice(dev)
+					}
+					returned[g]++
+				}
+			}(g, r.U64())
+		}
+		wg.Wait()
+		total := 0
+		for _, n := range returned {
+			total += n
+		}
+		c.w.Emit(fmt.Sprintf("op-shared goroutines=%d calls=%d", G, G*K), fmt.Sprintf("returned=%d", total), "phase/shared-client")
 	}
 }
